@@ -403,6 +403,8 @@ package rpc
 //@   ensures [C16] implies(old(len(c.list)) >= 2, err == nil && len(result0) == 0 && liveT(c, result1))
 //@   ensures [C17] implies(old(len(c.list)) >= 2 && c.Scheduling != 1 && c.Scheduling != 2, result1 == old(c.list[c.pos]) && c.pos == (old(c.pos) + 1) % old(len(c.list)))
 //@   ensures [C17] implies(old(len(c.list)) >= 2 && c.Scheduling == 1, c.pos == old(c.pos))
+//@   ensures [C17] implies(old(len(c.list)) >= 2 && c.Scheduling == 2 && c.pos == old(c.pos), result1 == c.minHeap[0] && forall(j, 0, len(c.minHeap), result1.latency <= c.minHeap[j].latency))
+//@   ensures [C17] implies(old(len(c.list)) >= 2 && c.Scheduling == 2 && c.pos != old(c.pos), result1 == old(c.list[c.pos]) && c.pos == (old(c.pos) + 1) % old(len(c.list)))
 //@   ensures len(c.list) == old(len(c.list)) && forall(i, 0, len(c.list), c.list[i] == old(c.list[i]))
 //@   ensures forall(i, 0, len(c.minHeap), liveT(c, c.minHeap[i])) && len(c.minHeap) == old(len(c.minHeap)) && (len(c.list) == 0 || (0 <= c.pos && c.pos < len(c.list)))
 //@   ensures implies(old(len(c.list)) == 1, len(result0) > 0)
@@ -412,20 +414,32 @@ package rpc
 //@   ensures [C16] implies(err == nil && result1 == nil, exists_live_addr(c, result0))
 
 // heap helpers: elements stay non-nil and keep any ghost mark (the mark is an arbitrary unchanged predicate on targets:
-// "heapify only permutes"). The heap-order result (root is minimal) is covered by a bounded stand-in, see DESIGN.md.
+// "heapify only permutes"). Heap order: heapAt(h, p, n) says node p is not above either of its children; heapDown restores
+// the order from i on when it held from i+1 on (classic sift-down invariant: every node but `parent` is in order, and the
+// node above `parent` is not above parent's children); minHeap establishes it from 0 on, and the root is then minimal by
+// strong induction on the index (induct clause, hypothesis used at the parent (j-1)/2).
 //@ pure allMarked(h []*target, n int) bool = forall(j, 0, n, h[j] != nil && gb_mark(h[j]))
+//@ pure heapAt(h []*target, p int, n int) bool = (2*p+1 >= n || h[p].latency <= h[2*p+1].latency) && (2*p+2 >= n || h[p].latency <= h[2*p+2].latency)
+//@ pure heapFrom(h []*target, lo int, n int) bool = forall(p, lo, n, heapAt(h, p, n))
 //@ func heapDown
 //@   property C17 C16
 //@   requires holds(Client_lock) && 0 <= i && i < n && n <= len(h) && allMarked(h, n)
+//@   requires [C17] heapFrom(h, i+1, n)
 //@   ensures allMarked(h, n)
+//@   ensures [C17] heapFrom(h, i, n)
 //@   modifies h[0:n]
-//@   loop 1: invariant 0 <= parent && parent < n && allMarked(h, n)
+//@   loop 1: invariant 0 <= parent && parent < n && allMarked(h, n) && i <= parent
+//@   loop 1: invariant [C17] forall(p, i, n, p == parent || heapAt(h, p, n))
+//@   loop 1: invariant [C17] forall(p, i, n, implies(2*p+1 == parent || 2*p+2 == parent, (2*parent+1 >= n || h[p].latency <= h[2*parent+1].latency) && (2*parent+2 >= n || h[p].latency <= h[2*parent+2].latency)))
 //@ func minHeap
 //@   property C17 C16
 //@   requires holds(Client_lock) && allMarked(h, len(h))
 //@   ensures allMarked(h, len(h))
+//@   ensures [C17] forall(j, 0, len(h), h[0].latency <= h[j].latency)
 //@   modifies h[0:len(h)]
 //@   loop 1: invariant 0-1 <= i && i < n && n == len(h) && allMarked(h, len(h))
+//@   loop 1: invariant [C17] heapFrom(h, i+1, n)
+//@   induct [C17] forall(j, 0, len(h), h[0].latency <= h[j].latency) by (j-1)>>1
 
 //@ pure drainInv(m map[uint64]*waiter) bool = m != nil && len(m) == rangen() - rangeidx() &&
 //@      forall(i, 0, rangeidx(), !has(m, rangekey(i))) && forall(i, rangeidx(), rangen(), has(m, rangekey(i))) &&
